@@ -4959,26 +4959,44 @@ static PyObject *
 _trait_setstate(trait_object *trait, PyObject *args)
 {
     PyObject *ignore;
+    PyObject *py_post_setattr, *py_validate, *default_value, *delegate_name;
+    PyObject *delegate_prefix, *handler, *obj_dict;
     int getattr_index, setattr_index, post_setattr_index, validate_index,
-        delegate_attr_name_index;
+        delegate_attr_name_index, default_value_type;
+    unsigned int flags;
 
+    /* Parse into local variables: the trait is only modified once the whole
+       state is known to be usable. */
     if (!PyArg_ParseTuple(
             args, "(iiiOiOiOIOOiOOO)", &getattr_index, &setattr_index,
-            &post_setattr_index, &trait->py_post_setattr, &validate_index,
-            &trait->py_validate, &trait->default_value_type,
-            &trait->default_value, &trait->flags, &trait->delegate_name,
-            &trait->delegate_prefix, &delegate_attr_name_index, &ignore,
-            &trait->handler, &trait->obj_dict)) {
+            &post_setattr_index, &py_post_setattr, &validate_index,
+            &py_validate, &default_value_type, &default_value, &flags,
+            &delegate_name, &delegate_prefix, &delegate_attr_name_index,
+            &ignore, &handler, &obj_dict)) {
         return NULL;
     }
 
-    trait->getattr = getattr_handlers[getattr_index];
-    trait->setattr = setattr_handlers[setattr_index];
-    trait->post_setattr =
-        (trait_post_setattr)setattr_property_handlers[post_setattr_index];
-    trait->validate = validate_handlers[validate_index];
-    trait->delegate_attr_name =
-        delegate_attr_name_handlers[delegate_attr_name_index];
+    if ((getattr_index < 0)
+        || (getattr_index
+            >= (int)(sizeof(getattr_handlers) / sizeof(getattr_handlers[0])))
+        || (setattr_index < 0)
+        || (setattr_index
+            >= (int)(sizeof(setattr_handlers) / sizeof(setattr_handlers[0])))
+        || (post_setattr_index < 0)
+        || (post_setattr_index
+            >= (int)(sizeof(setattr_property_handlers)
+                     / sizeof(setattr_property_handlers[0])))
+        || (validate_index < 0)
+        || (validate_index
+            >= (int)(sizeof(validate_handlers) / sizeof(validate_handlers[0])))
+        || (delegate_attr_name_index < 0)
+        || (delegate_attr_name_index
+            >= (int)(sizeof(delegate_attr_name_handlers)
+                     / sizeof(delegate_attr_name_handlers[0])))) {
+        PyErr_SetString(
+            PyExc_ValueError, "The state contains an invalid handler index.");
+        return NULL;
+    }
 
     /*
        Backwards compatibility hack for old pickles. Versions of Traits
@@ -4988,23 +5006,49 @@ _trait_setstate(trait_object *trait, PyObject *args)
        sure that we don't need to handle pickles generated by Traits
        versions < 6.0.
     */
-    if (PyLong_Check(trait->py_validate)) {
-        trait->py_validate =
-            PyObject_GetAttrString(trait->handler, "validate");
+    if (PyLong_Check(py_validate)) {
+        py_validate = PyObject_GetAttrString(handler, "validate");
+        if (py_validate == NULL) {
+            return NULL;
+        }
     }
-    if (PyLong_Check(trait->py_post_setattr)) {
-        trait->py_post_setattr =
-            PyObject_GetAttrString(trait->handler, "post_setattr");
+    else {
+        Py_INCREF(py_validate);
+    }
+    if (PyLong_Check(py_post_setattr)) {
+        py_post_setattr = PyObject_GetAttrString(handler, "post_setattr");
+        if (py_post_setattr == NULL) {
+            Py_DECREF(py_validate);
+            return NULL;
+        }
+    }
+    else {
+        Py_INCREF(py_post_setattr);
     }
     /* End backwards compatibility hack */
 
-    Py_INCREF(trait->py_post_setattr);
-    Py_INCREF(trait->py_validate);
-    Py_INCREF(trait->default_value);
-    Py_INCREF(trait->delegate_name);
-    Py_INCREF(trait->delegate_prefix);
-    Py_INCREF(trait->handler);
-    Py_INCREF(trait->obj_dict);
+    trait->getattr = getattr_handlers[getattr_index];
+    trait->setattr = setattr_handlers[setattr_index];
+    trait->post_setattr =
+        (trait_post_setattr)setattr_property_handlers[post_setattr_index];
+    trait->validate = validate_handlers[validate_index];
+    trait->delegate_attr_name =
+        delegate_attr_name_handlers[delegate_attr_name_index];
+    trait->default_value_type = default_value_type;
+    trait->flags = flags;
+
+    Py_INCREF(default_value);
+    Py_INCREF(delegate_name);
+    Py_INCREF(delegate_prefix);
+    Py_INCREF(handler);
+    Py_INCREF(obj_dict);
+    Py_XSETREF(trait->py_post_setattr, py_post_setattr);
+    Py_XSETREF(trait->py_validate, py_validate);
+    Py_XSETREF(trait->default_value, default_value);
+    Py_XSETREF(trait->delegate_name, delegate_name);
+    Py_XSETREF(trait->delegate_prefix, delegate_prefix);
+    Py_XSETREF(trait->handler, handler);
+    Py_XSETREF(trait->obj_dict, obj_dict);
 
     Py_INCREF(Py_None);
     return Py_None;
